@@ -111,6 +111,11 @@ pub const SHAPES: &[&str] = &[
     r#"forbid(principal, action in [Action::"view", Action::"edit"], resource) when { (resource.owner.level > 100 || context.n > -1) && (User::"{U}".level < 100 || context.n > -1) };"#,
     r#"permit(principal, action in [Action::"view", Action::"edit"], resource) when { resource.owner == resource.owner && (if context.n > 100 then resource.owner.active else true) };"#,
     r#"permit(principal, action, resource) when { context has via && (context.via.active || context.n > -1) };"#,
+    // membership decided late (the group is reached through a second hop), so that an entity can be delivered twice before
+    r#"permit(principal, action in [Action::"view", Action::"edit"], resource) when { resource has parent && resource.parent has team && principal in resource.parent.team };"#,
+    r#"forbid(principal, action in [Action::"view", Action::"edit"], resource) when { resource has parent && resource.parent has team && resource.owner in resource.parent.team };"#,
+    r#"permit(principal, action in [Action::"view", Action::"edit"], resource) when { context has via && resource has parent && resource.parent has team && context.via in resource.parent.team };"#,
+    r#"permit(principal, action in [Action::"view", Action::"edit"], resource) when { resource has parent && resource.parent has parent && resource.parent.parent has team && principal in resource.parent.parent.team };"#,
 ];
 
 /// shapes from this index on are deep attribute chains; the generator favours them
@@ -687,7 +692,7 @@ fn gen_case(seed: u64) -> Case {
     let StoreIds { users, groups, docs, folders } = ids;
     // swarm: "membership" scenarios have a chain of groups, users only in the lowest one, documents
     // whose team is a higher one, and policies that test membership
-    let membership = rng.pct(20);
+    let membership = rng.pct(25);
     if membership {
         for e in ents.iter_mut() {
             let ty = e["uid"]["type"].as_str().unwrap_or("").to_string();
@@ -701,21 +706,24 @@ fn gen_case(seed: u64) -> Case {
                 "Doc" => {
                     let g = &groups[rng.range(groups.len() / 2, groups.len() - 1)];
                     e["attrs"]["team"] = uid_json("Group", g);
+                    if rng.pct(60) {
+                        e["attrs"]["parent"] = uid_json("Doc", pk(&mut rng, &docs));
+                    }
                 }
                 _ => {}
             }
         }
     }
-    const MEMBERSHIP_SHAPES: [usize; 6] = [5, 24, 27, 47, 48, 49];
+    const MEMBERSHIP_SHAPES: [usize; 14] = [5, 24, 27, 47, 48, 49, 49, 60, 60, 61, 61, 62, 63, 63];
     let np = rng.range(1, 6);
     let mut policies = vec![];
     for _ in 0..np {
         let s = if membership && rng.pct(70) { SHAPES[*rng.pick(&MEMBERSHIP_SHAPES)] } else if rng.pct(35) { SHAPES[rng.range(DEEP_FROM, SHAPES.len() - 1)] } else { *rng.pick(SHAPES) };
         // swarm: some policies come from the shapes for the two-resource-type action, some are templates with 1-3 links
         let mut tlinks = String::new();
-        let s = if rng.pct(12) {
+        let s = if !membership && rng.pct(12) {
             *rng.pick(EXTRA_SHAPES)
-        } else if rng.pct(10) {
+        } else if rng.pct(if membership { 4 } else { 10 }) {
             let (t, sp, sr) = *rng.pick(TEMPLATE_SHAPES);
             for _ in 0..rng.range(1, 3) {
                 let pv = if sp { if rng.pct(50) { format!("Group::\"{}\"", pk(&mut rng, &groups)) } else { format!("User::\"{}\"", pk(&mut rng, &users)) } } else { "-".to_string() };
@@ -750,7 +758,12 @@ fn gen_case(seed: u64) -> Case {
         ctx.insert("docs".into(), Value::Array(ds));
     }
     // swarm: which delivery faults are enabled in this run
-    let fault_weights: Vec<u32> = (0..6).map(|i| if i == 0 { 4 } else if fs.pct(45) { fs.range(1, 4) as u32 } else { 0 }).collect();
+    let mut fault_weights: Vec<u32> = (0..6).map(|i| if i == 0 { 4 } else if fs.pct(45) { fs.range(1, 4) as u32 } else { 0 }).collect();
+    // membership scenarios are where a re-delivered entity matters (its ancestors were computed
+    // when it first arrived): most of them get a loader that re-delivers often
+    if membership && fs.pct(70) {
+        fault_weights[3] = 5;
+    }
     Case {
         hash_seed: hs.next(),
         replica_seed: if rng.pct(20) { Some(hs.next()) } else { None },
